@@ -527,7 +527,9 @@ class BaseTable:
             index = util.safe_np_int_cast(index, np.int32)
 
         ret = self.__class__()
-        ret.metadata_schema = self.metadata_schema
+        # The provenance table has no metadata schema
+        if hasattr(self, "metadata_schema"):
+            ret.metadata_schema = self.metadata_schema
         ret.ll_table.extend(self.ll_table, row_indexes=index)
 
         return ret
